@@ -27,9 +27,10 @@ def check(rep, tier):
                 "the table must have one row per repetition in seed order, be bit-identical between modes and worker counts, row i must equal the single run with seed i on a fresh object, "
                 "a single run (Nrep=1) must equal repetition 0, and repeating run() must reproduce the table; non-trivial = Nrep >= 2")
     rep.trusted = ["Coq 8.16.1 kernel", "each repetition is a pure function of its seed (np.random.seed(2024); np.random.seed(seed)) -- the hypothesis `f` of the theorems, checked here by bit-identity",
-                   "multiprocessing fork start method; OS scheduling sampled via cpu_count override"]
+                   "multiprocessing fork start method; OS scheduling sampled via cpu_count override; the order freedom of unordered pool APIs (imap_unordered) is exercised adversarially by a harness-side pool wrapper"]
     plans = [("homogeneous", 3, [("sequential", None), ("async", 2), ("async", 16)]), ("homogeneous", 5, [("sequential", None), ("async", 4)]),
-             ("spatial_1D", 2, [("sequential", None), ("async", 2)])]
+             ("spatial_1D", 2, [("sequential", None), ("async", 2)]),
+             ("spatial_2D", 3, [("async", 3)])]       # 2D: parallel rows vs single runs with seed i (the finishing order of the workers must not matter)
     if tier != "quick":
         plans += [("homogeneous", 8, [("sequential", None), ("async", 1), ("async", 3)]), ("spatial_1D", 3, [("sequential", None), ("async", 16)]),
                   ("spatial_2D", 2, [("sequential", None), ("async", 2)])]
@@ -56,7 +57,7 @@ def check(rep, tier):
             for how, ncpu in modes:
                 mp.cpu_count = (lambda n=ncpu: n) if ncpu else orig_cpu
                 S = sr.make(Nrep=Nrep, **kw)
-                with impl.quiet():
+                with impl.quiet(), impl.adversarial_pool():
                     S.run(how=how)
                     tb, idx = table(S)
                     if how == "sequential":
